@@ -659,6 +659,9 @@ func (x *Exec) evalGlobalInit(st *State, key string, t types.Type, init ast.Expr
 				arr := ConstArr(arraySort(SInt, SStr), StrLit(""))
 				for i, s := range lits {
 					arr = Store(arr, IntLit(int64(i)), StrLit(s))
+					if isASCII(s) {
+						x.ctx.assumeGlobal(st, UF("gs.ascii", SBool, StrLit(s)))
+					}
 				}
 				name := arrMapName(sl.Elem())
 				base := x.ctx.heapNode(&State{heap: map[string]*HNode{}}, name, arraySort(SInt, SStr))
@@ -721,4 +724,13 @@ func loadEnv() []string {
 		env = append(env, e)
 	}
 	return append(env, "PATH=/opt/veriftools/go1.26.8/bin:"+os.Getenv("PATH"), "GOFLAGS=-mod=mod", "GOPROXY=off", "GOSUMDB=off", "GOTOOLCHAIN=local")
+}
+
+func isASCII(s string) bool {
+	for i := 0; i < len(s); i++ {
+		if s[i] >= 0x80 {
+			return false
+		}
+	}
+	return true
 }
